@@ -24,6 +24,10 @@ class C04(Prop):
                     'btcmodel executable = compiled Model.* (Lean compiler)']
     assumptions = ['transaction fields lie in their wire ranges (Spec.Sighash.FieldsWF); 0 <= amount < 2^63; '
                    'script code shorter than 2^64 bytes',
+                   'OUT OF DOMAIN (cases kept to exercise the model error branches, divergences are observations, never '
+                   'violations): input index >= len(vin), amount None / negative / outside int64, hash types outside '
+                   'the 256 byte values -- which exception is raised there (and which of two applicable ones wins) is '
+                   'not constrained by the statement',
                    'input index >= 0 (for -|vin| <= inIdx < 0 Python silently uses vin[inIdx] / vout[inIdx] counted from '
                    'the end; this wrap-around is not modelled: declared exclusion, the driver answers bad-args)']
     rule = ('sampled transactions (1..4 inputs, 0..4 outputs, +-witness, both classes) with nLockTime / nSequence at '
@@ -107,7 +111,7 @@ class C04(Prop):
                     continue
                 text = text or txfmt.show_tx(t)
                 for ht in (G.HT_CLASSES if idx < nin else (1, 3)):
-                    yield mk('c04.bip143', cls, sc.hex(), text, idx, ht, amount, tag='many')
+                    yield mk('c04.bip143', cls, sc.hex(), text, idx, ht, amount, tag='many', ood=(idx >= nin))
                 if idx < nin:
                     yield mk('c04.spec.bip143', cls, sc.hex(), text, idx, (2, 3, 0x82, 0x83, 1)[idx % 5], amount,
                              tag='many-spec')
@@ -143,7 +147,7 @@ class C04(Prop):
                     for ht in G.HT_STANDARD + (0, 0x1f, 0x22, 0x43, 0xe3, rng.randrange(256)):
                         yield mk('c04.spec.bip143', cls, sc.hex(), text, idx, ht, amount, tag='spec')
                     for ht in (G.HT_RANGE if (big or n % 4 == 0) else rng.sample(G.HT_RANGE, 4)):
-                        yield mk('c04.bip143', cls, sc.hex(), text, idx, ht, amount, tag='ht-range')
+                        yield mk('c04.bip143', cls, sc.hex(), text, idx, ht, amount, tag='ht-range', ood=True)
                     # all amount edges x script-code length edges on the six defined types
                     for am in (0, 1, I64MAX, I64MAX - 1, 1 << 62):
                         for ln in (0, 0xfc, 0xfd, 300):
@@ -156,13 +160,13 @@ class C04(Prop):
             cls = rng.choice('im')
             nin = len(t['vin'])
             for ht in (1, 3, 0x82):
-                yield mk('c04.bip143', cls, sc.hex(), text, nin, ht, rng.choice((0, 1, I64MAX)), tag='idx-oob')
-            yield mk('c04.bip143', cls, sc.hex(), text, nin + 1, 1, 0, tag='idx-oob')
+                yield mk('c04.bip143', cls, sc.hex(), text, nin, ht, rng.choice((0, 1, I64MAX)), tag='idx-oob', ood=True)
+            yield mk('c04.bip143', cls, sc.hex(), text, nin + 1, 1, 0, tag='idx-oob', ood=True)
             idx = rng.randrange(nin)
             for am in ('none', -1, -2, -(1 << 63), -(1 << 63) + 1, -rng.randrange(1, 1 << 63), 1 << 63, -(1 << 63) - 1,
                        (1 << 64) - 1):
-                yield mk('c04.bip143', cls, sc.hex(), text, idx, rng.choice(G.HT_STANDARD), am, tag='amount-range')
-            yield mk('c04.bip143', cls, sc.hex(), text, nin, 1, 'none', tag='amount-range')
+                yield mk('c04.bip143', cls, sc.hex(), text, idx, rng.choice(G.HT_STANDARD), am, tag='amount-range', ood=True)
+            yield mk('c04.bip143', cls, sc.hex(), text, nin, 1, 'none', tag='amount-range', ood=True)
 
     def model_line(self, c):
         if c['op'] == 'c04.hist':
